@@ -222,6 +222,13 @@ func (C *Contracts) loadContractFile(path string, defaultPkg string) error {
 				case prev.Kind == "func" && word == "extern":
 					cur, curMon, inSpec = &FuncContract{Kind: word, Pkg: pkg, Loops: map[int]*LoopSpec{}, Key: fc.Key}, nil, false // parsed and dropped
 					continue
+				case word == "func" && prev.Kind == "func" && prev.Pkg != pkg && (strings.HasPrefix(fc.Key, pkg+".") || strings.HasPrefix(fc.Key, prev.Pkg+".")):
+					// a function may carry a (trusted) contract in a client package's file and its own (proved) contract in
+					// its own package's file: when both files are loaded the owner's contract is used
+					if strings.HasPrefix(fc.Key, prev.Pkg+".") {
+						cur, curMon, inSpec = &FuncContract{Kind: word, Pkg: pkg, Loops: map[int]*LoopSpec{}, Key: fc.Key}, nil, false // parsed and dropped
+						continue
+					}
 				default:
 					return fmt.Errorf("%s: duplicate contract for %s", where(L.line), fc.Key)
 				}
@@ -286,7 +293,7 @@ func (C *Contracts) loadContractFile(path string, defaultPkg string) error {
 				break
 			}
 			for _, m := range splitTop(rest) {
-				e, err := parseExpr(m)
+				e, err := parseLocExpr(m)
 				if err != nil {
 					return fmt.Errorf("%s: %v", where(L.line), err)
 				}
@@ -294,7 +301,7 @@ func (C *Contracts) loadContractFile(path string, defaultPkg string) error {
 			}
 		case "preserves":
 			for _, m := range splitTop(rest) {
-				e, err := parseExpr(m)
+				e, err := parseLocExpr(m)
 				if err != nil {
 					return fmt.Errorf("%s: %v", where(L.line), err)
 				}
@@ -310,7 +317,7 @@ func (C *Contracts) loadContractFile(path string, defaultPkg string) error {
 			}
 		case "stable":
 			for _, m := range splitTop(rest) {
-				e, err := parseExpr(m)
+				e, err := parseLocExpr(m)
 				if err != nil {
 					return fmt.Errorf("%s: %v", where(L.line), err)
 				}
@@ -659,4 +666,15 @@ func parseFuncHeader(rest string, sigExpected bool) (string, []string, []string)
 		}
 	}
 	return rest, nil, results
+}
+
+// parseLocExpr parses one entry of a modifies / preserves / stable list; maps(T) takes a Go type, which the
+// expression grammar does not cover (map[string]string).
+func parseLocExpr(m string) (*Expr, error) {
+	t := strings.TrimSpace(m)
+	if strings.HasPrefix(t, "maps(") && strings.HasSuffix(t, ")") {
+		ty := strings.TrimSpace(t[5 : len(t)-1])
+		return &Expr{Kind: "call", Name: "maps", Args: []*Expr{{Kind: "ident", Name: ty, Src: ty}}, Src: t}, nil
+	}
+	return parseExpr(m)
 }
